@@ -306,7 +306,7 @@ def _prove(reg, name):
     names = [v.decl().name() for v in [me.q] + me.iq_args] + [v.decl().name() + "'" for v in [me.q] + me.iq_args] \
         + ["i!sigma!%d" % i for i in range(1, 12)]
     import time as _t
-    t_end = _t.process_time() + (180 if reg.tier == "thorough" else 60)
+    t_end = _t.process_time() + (300 if reg.tier == "thorough" else 180)
     for (da, db, dc), desc, dbl in cands[:120]:
         if _t.process_time() > t_end:
             return False, {"reason": "time budget for the direction search exhausted after %d candidates" % tried}
